@@ -222,4 +222,41 @@ theorem inv_runQ (q : Q α) (ops : List (Op α)) (hq : Inv q) : Inv (runQ q ops)
   | nil => exact hq
   | cons op rest ih => exact ih _ (inv_stepOp q op hq)
 
+/-! #### the items at or above the cursor -/
+
+theorem filter_ge_of_seek (l : List (Item α)) (hs : Sorted l) (n : Nat) (e : Item α)
+    (h : seek l n = some e) :
+    l.filter (fun p => decide (n ≤ p.1)) = e :: l.filter (fun p => decide (e.1 + 1 ≤ p.1)) := by
+  induction l with
+  | nil => simp [seek] at h
+  | cons a l ih =>
+    unfold Sorted at hs
+    rw [List.pairwise_cons] at hs
+    unfold seek at h
+    rw [List.find?_cons] at h
+    by_cases hn : n ≤ a.1
+    · simp [hn] at h
+      subst h
+      have h1 : ¬ a.1 + 1 ≤ a.1 := by omega
+      simp only [List.filter_cons, hn, decide_true, if_true, h1, decide_false]
+      simp
+      have e1 : l.filter (fun p => decide (n ≤ p.1)) = l := by
+        rw [List.filter_eq_self]; intro b hb; have := hs.1 b hb; simp; omega
+      have e2 : l.filter (fun p => decide (a.1 + 1 ≤ p.1)) = l := by
+        rw [List.filter_eq_self]; intro b hb; have := hs.1 b hb; simp; omega
+      rw [e1, e2]
+    · simp [hn] at h
+      have hge := seek_some_ge (l := l) (n := n) (e := e) h
+      have h2 : ¬ e.1 + 1 ≤ a.1 := by omega
+      simp only [List.filter_cons, hn, decide_false, h2]
+      simp
+      exact ih hs.2 h
+
+theorem filter_ge_of_seek_none (l : List (Item α)) (n : Nat) (h : seek l n = none) :
+    l.filter (fun p => decide (n ≤ p.1)) = [] := by
+  unfold seek at h
+  rw [List.find?_eq_none] at h
+  rw [List.filter_eq_nil_iff]
+  exact h
+
 end RqModel.Fifo
